@@ -28,6 +28,9 @@ var zzCfgsQuick = []zzCfg{
 	// context-aware datastore with snapshot read transactions and a flush per header: a header leaves the
 	// write batch as soon as it is appended, so a reader only finds it through the datastore
 	{512, 1, 1, 1},
+	// plain datastore (every delete is an immediate write) with a write batch of two: one header can
+	// linger in the batch while the next append flushes it
+	{2, 2, 0, 7},
 }
 
 func zzPickCfg() zzCfg {
@@ -36,6 +39,9 @@ func zzPickCfg() zzCfg {
 		batches := []int{1, 2, 64}
 		bases := []uint64{1, 7, 1 << 32}
 		return zzCfg{caches[zz.Choice("cfg.cache", 3)], batches[zz.Choice("cfg.batch", 3)], zz.Choice("cfg.flavour", 2), bases[zz.Choice("cfg.base", 3)]}
+	}
+	if zz.Param("CFGPLUS", 0) == 1 {
+		return zzCfgsQuick[[]int{0, 1, 2, 3, 7}[zz.Choice("cfg", 5)]]
 	}
 	return zzCfgsQuick[zz.Choice("cfg", 4)]
 }
